@@ -31,6 +31,9 @@ def ask(ureg, q, num):
             return ["ok", norm_num(r.magnitude), norm_units(r)]
         if kind == "convert":
             return ["ok", norm_num(ureg.convert(num(q[1]), q[2], q[3]))]
+        if kind == "conv_ctx":
+            r = ureg.Quantity(num(q[1]), q[2]).to(q[3], *q[4:])
+            return ["ok", norm_num(r.magnitude), norm_units(r)]
         if kind == "parse_units":
             kw = q[2] if len(q) > 2 else {}
             return ["ok", norm_units(ureg.parse_units(q[1], **kw))]
@@ -94,6 +97,8 @@ def ask(ureg, q, num):
             return ["ok", sorted(ureg.get_system(q[1], False).members)]
         if kind == "sysattr":
             return ["ok", norm_units(getattr(getattr(ureg.sys, q[1]), q[2]))]
+        if kind == "sysdir_all":
+            return ["ok", sorted(n for n in dir(ureg.sys) if not n.startswith("_"))]
         if kind == "sysdir":
             return ["ok", sorted(dir(getattr(ureg.sys, q[1])))]
     except Sentinel:
